@@ -5,12 +5,16 @@ import engine
 import vp
 from checks import prop, REPLAYERS
 
-CL_INV = ["StoppedNodeAdvertisesNothing", "LeftViewsAreEmpty", "NeverRouteToLeft", "NotifiedStopRoutingAtOnce"]
+CL_INV = ["VersionsInRange", "StoppedNodeAdvertisesNothing", "LeftViewsAreEmpty", "LeftOnlyAfterLeave", "NeverRouteToLeft",
+          "NotifiedStopRoutingAtOnce"]
 CL_PROPS = ["EventuallyRecovered", "StopTerminates"]
+# trace validation: three processes a, b, c; one listener per endpoint; the failure detector of a loaded
+# machine may suspect a live node for a while
+TRACE_CONSTS = {"Node": {"a", "b", "c"}, "Lsn": {"e1", "e2"}, "MaxNotify": 4, "AwaitDereg": True, "Flaky": True}
 
 
 def model(chk, label, c, timeout=2400):
-    c = dict(c, AwaitDereg=True)
+    c = dict(c, AwaitDereg=True, Flaky=False)
     with vp.Scratch("mc-" + label) as d:
         vp.copy_specs(d, ["Cluster"])
         res = vp.run_tlc(d, "Cluster", vp.cfg_text("Spec", c, CL_INV, CL_PROPS, None), timeout=timeout)
@@ -22,7 +26,7 @@ def model(chk, label, c, timeout=2400):
 def model_d6(chk, c):
     """The design of the pinned tree (Shutdown() does not wait for the handlers to deregister) must violate
     LeftViewsAreEmpty / StoppedNodeAdvertisesNothing in the model: the invariants are not vacuous."""
-    c = dict(c, AwaitDereg=False)
+    c = dict(c, AwaitDereg=False, Flaky=False)
     with vp.Scratch("mc-C18-d6") as d:
         vp.copy_specs(d, ["Cluster"])
         res = vp.run_tlc(d, "Cluster", vp.cfg_text("Spec", c, CL_INV, (), None), timeout=600)
@@ -74,7 +78,7 @@ def c18(chk):
     model_d6(chk, {"Node": {"a", "b"}, "Lsn": {"l1", "l2"}, "MaxNotify": 4})
     # the stop order on an in-process node with many upstream connections, observed from a peer
     v, st0 = engine.run(chk, "peng", {"mode": "stoporder", "n": 300, "sample": 3 if quick else 25}, "stop-order",
-                        "TraceC", {}, ["NoStepViolation"], "peng-loss", what="the stopping node as seen by its peer",
+                        "TraceC", TRACE_CONSTS, ["NoStepViolation"], "peng-loss", what="the stopping node as seen by its peer",
                         strip=(), timeout=1800)
     if st0.get("by_op", {}).get("StopOrder", 0) == 0:
         raise vp.Machinery("vacuous run: no StopOrder")
@@ -85,8 +89,8 @@ def c18(chk):
     if not quick:
         cs = cs * 2
     v, st = engine.run(chk, "peng", {"mode": "c18", "pikoBin": pbin, "logDir": logdir, "cases": cs}, "loss",
-                       "TraceC", {}, ["NoStepViolation"], "peng-loss", what="the real cluster of processes",
-                       strip=(), timeout=3400)
+                       "TraceC", TRACE_CONSTS, ["NoStepViolation"], "peng-loss", what="the real cluster of processes",
+                       strip=(), timeout=3400, max_lines=2)
     chk.notes["executed_calls_by_action"] = st.get("by_op")
     chk.notes["scenarios"] = cs
     chk.nontrivial = st.get("by_op", {}).get("Loss", 0) + st0.get("by_op", {}).get("StopOrder", 0)
@@ -98,8 +102,8 @@ def c18(chk):
 def _replay(chk, obj):
     fs = obj.get("full_sched", {})
     fs["pikoBin"] = build_piko()
-    v, st = engine.run(chk, "peng", fs, "replay", "TraceC", {}, ["NoStepViolation"], "peng-loss",
-                       what="the real cluster of processes", strip=())
+    v, st = engine.run(chk, "peng", fs, "replay", "TraceC", TRACE_CONSTS, ["NoStepViolation"], "peng-loss",
+                       what="the real cluster of processes", strip=(), max_lines=2)
     print("replay: not reproduced (%d scenarios)" % st.get("by_op", {}).get("Loss", 0))
 
 
